@@ -40,7 +40,7 @@ func (c17) Describe() core.Description {
 		Race:            true,
 		PlansPerProcess: 4,
 		Technique:       "deterministic simulation of caller goroutines under a seeded one-at-a-time task scheduler (raw-pipe hand-off invisible to the race detector, go/ast-inserted yield points in scratch copies of /repo and four circl packages, PCT-style preemption lists), built with -race; oracles: race detector reports, byte-equality of every call's result with a sequential re-execution on a fresh equal object under the same entropy, worker death",
-		Rule: "one case = one schedule: 2-6 tasks x 1-4 calls on one shared object (type-1/2/3/5 issuer, generic batch issuer, ECDSA key on one of four curves, Ed25519 key; cold or used-before) with 0-3 preemptions 'task t at its j-th yield -> run task u' or run-to-completion in a drawn order; one evaluation = one call compared with its sequential re-execution; " +
+		Rule: "one case = one schedule: 2-6 tasks x 1-4 calls on one shared object (type-1/2/3/5 issuer, generic batch issuer, ECDSA key on one of four curves, Ed25519 key; cold or used-before) with 0-3 preemptions 'task t at its j-th yield -> run task u' or run-to-completion in a drawn order; sweep and pair profiles walk the preempted yield index with the plan index (pair: a multi-phase call preempted at call-relative yield j, one whole foreign call of the same family in the window); one evaluation = one call compared with its sequential re-execution; " +
 			"non-trivial = a schedule in which a preemption separated two calls on the shared object (it fired); distinct = distinct (object kind, operation pair around the switch, yield site) triples",
 		Real:        []string{"all issuers' Evaluate/EvaluateBatch/Verify/TokenKey/TokenKeyID/NameKey", "ecdsa Sign/SignASN1/Verify/VerifyASN1/Blind*/Unblind*/BlindKeySign*", "ed25519 Sign/Verify/Blind*/BlindKeySign*", "circl oprf, zk/dleq, group, blindrsa (instrumented copies)"},
 		Stub:        []string{"task scheduler", "per-task entropy sources", "yield instrumentation (scratch copy only)", "batched.Issuer adapters"},
